@@ -70,19 +70,76 @@ def _mut_escapes(fn, path):
     return out
 
 
-def _charge_fees_body(ctx, key, f, bc_re):
-    ps = H.success_paths(f)
-    ok = len(ps) == 1
-    msg = "%d success paths" % len(ps)
+
+def _fee_helper_ok(callee):
+    """A private helper `h(.., amount: &mut T) -> Result<Fees>`: *amount = apply_fees(params, bc, amount)?.0, returns .1 of that call."""
+    ps = H.success_paths(callee)
+    if len(ps) != 1:
+        return False, "%d success paths" % len(ps)
+    p = ps[0]
+    ap = [c for c in p["calls"] if c.short == "FeeParams::apply_fees"]
+    if len(ap) != 1:
+        return False, "apply_fees x%d" % len(ap)
+    amt = p["ev"].call_args(ap[0])[2]
+    st = [x for x in H.stores_on_path(callee, p) if str(x["dest"]) == str(amt)]
+    ret = dict(p["ret"].a[1]).get("0") if p["ret"].k == "agg" else None
+    ok = amt.k == "param" and len(st) == 1 and ret is not None
     if ok:
-        p = ps[0]
-        st = [s for s in H.stores_on_path(f, p) if str(s["dest"]) == "amount"]
-        ap = r"^Option::ok_or\(FeeParams::apply_fees\(SwapMarket::swap_fee_params\(self\.market\)\?, %s, amount\), .*\)\?" % bc_re
-        ret = str(dict(p["ret"].a[1])["0"])
-        ok = len(st) == 1 and re.match(ap + r"\.0$", str(st[0]["value"])) is not None and re.match(ap + r"\.1$", ret) is not None
-        msg = "*amount = %s ; returns %s" % (str(st[0]["value"])[-60:] if st else None, ret[-40:])
-    ctx.ob(key, ok, "%s: the amount is replaced by apply_fees(swap_fee_params, .., amount).0 and the fees returned are .1 of the same call (%s)" % (f.short, msg),
-           where=f.where())
+        r0, p0 = H.chain_root(st[0]["value"])
+        r1, p1 = H.chain_root(ret)
+        ok = r0.k == "call" and r1.k == "call" and r0.a[2] is ap[0] and r1.a[2] is ap[0] and p0 == ".0" and p1 == ".1" and \
+            re.match(r"^SwapMarket::swap_fee_params\(self\.market\)\?$", str(p["ev"].call_args(ap[0])[0])) is not None
+    return ok, "*%s = apply_fees(swap_fee_params, .., %s)?.0 ; returns .1" % (amt, amt)
+
+
+def _fee_steps(f, p):
+    """Fee charging steps on the path, whether apply_fees is called directly or through a private helper that rewrites the
+    amount in place.  Each step: dict(pos, amount=E given to apply_fees (caller view), bc=E, namer, helper=Fn|None, why)."""
+    ev = p["ev"]
+    steps = []
+    esc = _mut_escapes(f, p)
+    for e in H.deep_calls(f, p, r"^FeeParams::apply_fees$"):
+        top, inner = e["cs"], e["inner"]
+        step = {"pos": ev.pos[top.bb], "amount": e["args"][2], "bc": e["args"][1], "top": top, "helper": None, "bad": []}
+        if e["depth"] == 0:
+            def namer(x, inner=inner, idx=len(steps)):
+                r, proj = H.chain_root(x)
+                if r.k == "call" and len(r.a) > 2 and r.a[2] is inner and proj in (".0", ".1"):
+                    return "FEE%d%s" % (idx, proj)
+                return None
+        else:
+            callee = (f.prog.callees(top) or [None])[0]
+            step["helper"] = callee
+            ok, why = _fee_helper_ok(callee) if callee is not None and e["depth"] == 1 else (False, "nested helper")
+            if not ok:
+                step["bad"].append("fee helper %s: %s" % (callee.short if callee else "?", why))
+            loc = [l for pos, cc, l in esc if cc is top]
+            if len(loc) != 1 or [cc for pos, cc, l in esc if l == loc[0] and cc is not top]:
+                step["bad"].append("the amount is not handed by &mut to the fee helper exactly once")
+            amt_atom = H.atom_name(e["args"][2])
+
+            def namer(x, top=top, amt_atom=amt_atom, idx=len(steps)):
+                r, proj = H.chain_root(x)
+                if r.k == "call" and len(r.a) > 2 and r.a[2] is top and proj == "":
+                    return "FEE%d.1" % idx
+                if H.atom_name(x) == amt_atom:
+                    return "FEE%d.0" % idx
+                return None
+        step["namer"] = namer
+        steps.append(step)
+    return steps
+
+
+def _fee_lin(steps):
+    def namer(x):
+        if x.k == "call" and x.a[0] in ("Fees::fee_amount_for_receiver", "Fees::fee_amount_for_pool") and len(x.a[1]) == 1:
+            return "%s(%s)" % (x.a[0].split("::")[1], H.atom_name(x.a[1][0], namer))
+        for st in steps:
+            n = st["namer"](x)
+            if n is not None:
+                return n
+        return None
+    return lambda e: H.lin_of(e, namer)
 
 
 # ------------------------------------------------------------------------------------------------ primitives
@@ -142,52 +199,48 @@ def _primitives(ctx, prog):
 
 def _deposit(ctx, prog):
     f = ctx.fn(r"gmsol_model::action::deposit::Deposit::<M, DECIMALS>::execute_deposit")
-    cf = ctx.fn(r"gmsol_model::action::deposit::Deposit::<M, DECIMALS>::charge_fees")
-    if cf is not None:
-        _charge_fees_body(ctx, "conserve:deposit:charge_fees", cf, r"balance_change")
     if f is not None:
         ps = [p for p in H.success_paths(f) if not H.impossible_sign_path(p)]
         ctx.floor("conserve:deposit:paths", len(ps), 4)
-        bad_in, bad_out = [], []
+        bad_in, bad_out, bad_fee = [], [], []
         seen = set()
+        forms = set()
         for p in ps:
             ev = p["ev"]
             eff = H.pool_effects(f, p)
-            tot, bad = H.ledger(eff, r"^is_long_token$", _lin, TOKEN_POOLS)
+            steps = _fee_steps(f, p)
+            if len(steps) != 1:
+                bad_fee.append("%d fee steps on a success path" % len(steps))
+                continue
+            st = steps[0]
+            bad_fee.extend(st["bad"])
+            forms.add("helper %s" % st["helper"].short if st["helper"] is not None else "apply_fees inline")
+            lin = _fee_lin(steps)
+            tot, bad = H.ledger(eff, r"^is_long_token$", lin, TOKEN_POOLS)
             bad_in.extend(bad)
             other = [e["pool"] for e in eff if e["pool"] not in TOKEN_POOLS]
             if other:
                 bad_in.append("effects on other pools %s" % other)
-            cfc = [c for c in p["calls"] if c.short == "Deposit::charge_fees"]
-            if len(cfc) != 1:
-                bad_in.append("charge_fees called %d times" % len(cfc))
-                continue
-            cpos = ev.pos[cfc[0].bb]
-            esc = [(pos, c, l) for pos, c, l in _mut_escapes(f, p)]
-            amt_local = [l for pos, c, l in esc if c is cfc[0]]
-            if len(amt_local) != 1 or [c for pos, c, l in esc if l == amt_local[0] and c is not cfc[0]]:
-                bad_in.append("the amount is not handed by &mut to charge_fees exactly once")
-                continue
-            if any(ev.pos[e["cs"].bb] < cpos for e in eff):
-                bad_in.append("a pool effect precedes charge_fees")
-            amt_atom = H.atom_name(ev.call_args(cfc[0])[2])
-            src = str(ev.call_args(cfc[0])[2])
+            if any(ev.pos[e["cs"].bb] < st["pos"] for e in eff):
+                bad_in.append("a pool effect precedes the fee step")
+            src = str(st["amount"])
             if not re.match(r"^DepositParams::reassign_values\(self\.params, is_long_token\)\.amount$", src):
-                bad_in.append("amount source %s" % src[:80])
-            fees = H.atom_name(ev.call_value(cfc[0]))
-            want = H.Lin({amt_atom: 1, "fee_amount_for_pool(%s)" % fees: 1, "fee_amount_for_receiver(%s)" % fees: 1})
+                bad_fee.append("fee base %s" % src[:80])
+            want = H.Lin({"FEE0.0": 1, "fee_amount_for_pool(FEE0.1)": 1, "fee_amount_for_receiver(FEE0.1)": 1})
             got = tot.get("S", H.Lin())
-            kinds = sorted(set(e["pool"] for e in eff))
-            seen.add(tuple(kinds))
+            seen.add(tuple(sorted(set(e["pool"] for e in eff))))
             if got != want:
                 bad_in.append("in-side sum %s != %s" % (got.show(), want.show()))
             if tot.get("!S", H.Lin()):
                 bad_out.append("other-side sum %s" % tot["!S"].show())
             if set(tot) - {"S", "!S"}:
                 bad_out.append("constant side %s" % sorted(tot))
-        ctx.ob("conserve:deposit:in-side", not bad_in and len(ps) > 0,
+        ctx.ob("conserve:deposit:charge_fees", not bad_fee and len(ps) > 0,
+               "execute_deposit charges fees once per path on reassign_values(params, is_long_token).amount; (amount_after_fees, fees) are (.0, .1) of one "
+               "apply_fees(swap_fee_params, ..) call (%s)%s" % (sorted(forms), "; VIOLATED: %s" % sorted(set(bad_fee))[:2] if bad_fee else ""), where=f.where())
+        ctx.ob("conserve:deposit:in-side", not bad_in and not bad_fee and len(ps) > 0,
                "execute_deposit, %d success paths: Δliquidity+Δswap_impact+Δclaimable_fee on the deposited token = amount_after_fees + fee_for_pool + "
-               "fee_for_receiver of one charge_fees call on params.{long,short}_token_amount (pool sets seen: %s)%s" % (
+               "fee_for_receiver of that fee step (pool sets seen: %s)%s" % (
                    len(ps), sorted(seen), "; VIOLATED: %s" % sorted(set(bad_in))[:2] if bad_in else ""), where=f.where())
         ctx.ob("conserve:deposit:other-side", not bad_out and len(ps) > 0,
                "execute_deposit: on the other token the deltas cancel (positive impact moves the same amount from the impact pool to the liquidity pool)%s" % (
@@ -228,21 +281,28 @@ def _deposit(ctx, prog):
 
 def _withdraw(ctx, prog):
     f = ctx.fn(r"Withdrawal<M, DECIMALS> as gmsol_model::action::MarketAction>::execute")
-    cf = ctx.fn(r"gmsol_model::action::withdraw::Withdrawal::<M, DECIMALS>::charge_fees")
-    if cf is not None:
-        _charge_fees_body(ctx, "conserve:withdraw:charge_fees", cf, r"BalanceChange::Worsened\{\}")
     if f is None:
         return
     ps = H.success_paths(f)
     ctx.floor("conserve:withdraw:paths", len(ps), 1)
     res = {"true": [], "false": []}
+    bad_fee = []
+    forms = set()
     for p in ps:
         ev = p["ev"]
         eff = H.pool_effects(f, p)
-        tot, bad = H.ledger(eff, r"^\b$", _lin, TOKEN_POOLS)
+        steps = _fee_steps(f, p)
+        if len(steps) != 2:
+            bad_fee.append("%d fee steps (expected one per token)" % len(steps))
+            continue
+        for st in steps:
+            bad_fee.extend(st["bad"])
+            forms.add("helper %s" % st["helper"].short if st["helper"] is not None else "apply_fees inline")
+            if str(st["bc"]) != "BalanceChange::Worsened{}":
+                bad_fee.append("balance change %s" % st["bc"])
+        lin = _fee_lin(steps)
+        tot, bad = H.ledger(eff, r"^\b$", lin, TOKEN_POOLS)
         rep = dict(dict(p["ret"].a[1])["0"].a[1]) if p["ret"].k == "agg" else {}
-        esc = _mut_escapes(f, p)
-        cfs = [c for c in p["calls"] if c.short == "Withdrawal::charge_fees"]
         for side, fld, feefld in (("true", "long_token_output", "long_token_fees"), ("false", "short_token_output", "short_token_fees")):
             b = list(bad)
             out = rep.get(fld)
@@ -250,29 +310,26 @@ def _withdraw(ctx, prog):
             if out is None or fees is None:
                 res[side].append("report field missing")
                 continue
-            # the fee call of this side and its &mut amount
-            mine = [c for c in cfs if str(ev.call_value(c)) == str(fees).rstrip("?") or str(fees).startswith(str(ev.call_value(c)))]
-            if len(mine) != 1:
-                b.append("cannot tie report.%s to one charge_fees call" % feefld)
+            lf, lo = lin(fees), lin(out)
+            idx = [i for i in range(2) if lf == H.Lin({"FEE%d.1" % i: 1})]
+            if len(idx) != 1 or lo != H.Lin({"FEE%d.0" % idx[0]: 1}):
+                b.append("report.%s / report.%s are not (.1, .0) of one fee step (%s, %s)" % (feefld, fld, lf.show()[:60], lo.show()[:60]))
             else:
-                c = mine[0]
-                loc = [l for pos, cc, l in esc if cc is c]
-                if len(loc) != 1 or [cc for pos, cc, l in esc if l == loc[0] and cc is not c]:
-                    b.append("output amount not handed by &mut to exactly this charge_fees")
-                if str(ev.call_args(c)[1]) != str(out):
-                    b.append("report.%s is not the amount given to charge_fees" % fld)
-                if any(ev.pos[e["cs"].bb] < ev.pos[c.bb] for e in eff if str(e["side"]) == side):
-                    b.append("a pool effect precedes charge_fees")
-            got = tot.get(side, H.Lin())
-            want = _lin(out).scale(-1)
-            if got != want or not want:
-                b.append("Δliquidity+Δclaimable_fee = %s but -(output) = %s" % (got.show(), want.show()))
+                st = steps[idx[0]]
+                if any(ev.pos[e["cs"].bb] < st["pos"] for e in eff if str(e["side"]) == side):
+                    b.append("a pool effect precedes the fee step")
+                got = tot.get(side, H.Lin())
+                if got != lo.scale(-1):
+                    b.append("Δliquidity+Δclaimable_fee = %s but -(output) = %s" % (got.show(), lo.scale(-1).show()))
             res[side].extend(b)
         extra = set(tot) - {"true", "false"}
         if extra:
             res["true"].append("non-constant side %s" % sorted(extra))
+    ctx.ob("conserve:withdraw:charge_fees", not bad_fee and len(ps) > 0,
+           "Withdrawal::execute charges fees once per token with BalanceChange::Worsened; (amount_after_fees, fees) are (.0, .1) of one apply_fees(swap_fee_params, ..) "
+           "call each (%s)%s" % (sorted(forms), "; VIOLATED: %s" % sorted(set(bad_fee))[:2] if bad_fee else ""), where=f.where())
     for side, nm in (("true", "long"), ("false", "short")):
-        ctx.ob("conserve:withdraw:" + nm, not res[side] and len(ps) > 0,
+        ctx.ob("conserve:withdraw:" + nm, not res[side] and not bad_fee and len(ps) > 0,
                "Withdrawal::execute: Δliquidity[%s]+Δclaimable_fee[%s] = -(reported %s_token_output) — the pool loses output + fee_for_receiver, the receiver part "
                "is credited to claimable fees, the pool part stays in the pool%s" % (nm, nm, nm, "; VIOLATED: %s" % sorted(set(res[side]))[:2] if res[side] else ""),
                where=f.where())
@@ -310,7 +367,8 @@ def _fee_decomposition(ctx, prog):
 # ------------------------------------------------------------------------------------------------ (c) increase
 
 def _increase(ctx, prog):
-    f = ctx.fn(r"IncreasePosition::<P, DECIMALS>::process_collateral")
+    # anchored on the public entry; the private helper process_collateral is expanded (or may be inlined) — see h_B.events
+    f = ctx.fn(r"IncreasePosition<P, DECIMALS> as gmsol_model::action::MarketAction>::execute")
     if f is None:
         return
     ps = H.success_paths(f)
@@ -319,11 +377,11 @@ def _increase(ctx, prog):
     bad_c, bad_o = [], []
     for p in ps:
         eff = H.pool_effects(f, p)
-        fees_calls = [c for c in p["calls"] if c.short == "PositionExt::position_fees"]
+        fees_calls = H.deep_calls(f, p, r"^PositionExt::position_fees$")
         if len(fees_calls) != 1:
             bad_c.append("position_fees called %d times" % len(fees_calls))
             continue
-        FE = H._render(p["ev"].call_value(fees_calls[0]), {})
+        FE = H._render(fees_calls[0]["value"], {})
         for case in ("liquidation", "no-liquidation"):
             lin = lambda e: H.sym_lin(prog, e, {}, _liq_case(case))
             tot, bad = H.ledger(eff, SIDE, lin, TOKEN_POOLS)
@@ -338,20 +396,11 @@ def _increase(ctx, prog):
         if pools != ["claimable_fee", "collateral_sum", "liquidity"]:
             bad_c.append("pools touched %s" % pools)
     ctx.ob("conserve:increase:collateral-side", not bad_c and len(ps) > 0,
-           "IncreasePosition::process_collateral: Δcollateral_sum+Δclaimable_fee+Δliquidity on the collateral token = collateral_increment_amount − fees.funding.amount "
-           "(fees move collateral → pool/claimable; the funding fee paid is credited to no pool: it backs claimable funding)%s" % (
-               "; VIOLATED: %s" % sorted(set(bad_c))[:2] if bad_c else ""), where=f.where())
+           "IncreasePosition::execute (%d success paths, private helpers expanded): Δcollateral_sum+Δclaimable_fee+Δliquidity on the collateral token = "
+           "collateral_increment_amount − fees.funding.amount (fees move collateral → pool/claimable; the funding fee paid is credited to no pool: it backs "
+           "claimable funding); the position impact pool (index-token ledger) is not part of this identity%s" % (
+               len(ps), "; VIOLATED: %s" % sorted(set(bad_c))[:2] if bad_c else ""), where=f.where())
     ctx.ob("conserve:increase:other-side", not bad_o and len(ps) > 0, "no delta is applied to the other token%s" % ("; %s" % bad_o[:1] if bad_o else ""), where=f.where())
-    ex = ctx.fn(r"IncreasePosition<P, DECIMALS> as gmsol_model::action::MarketAction>::execute")
-    if ex is not None:
-        ps2 = H.success_paths(ex)
-        extra = set()
-        for p in ps2:
-            for e in H.pool_effects(ex, p):
-                extra.add(e["pool"])
-        ctx.ob("conserve:increase:execute-no-token-delta", not extra and len(ps2) > 0,
-               "IncreasePosition::execute applies no token-pool delta outside process_collateral (found %s); the position impact pool (index-token ledger) is not part "
-               "of this identity" % sorted(x or "?" for x in extra), where=ex.where())
 
 
 # ------------------------------------------------------------------------------------------------ (d) decrease: the transfers that are linear
@@ -410,7 +459,7 @@ def _decrease(ctx, prog):
         for p in ps:
             t = H.path_truth(p, cond_re)
             eff = [e for e in H.pool_effects(f, p)]
-            add = [c for c in p["calls"] if c.short == "CollateralProcessor::add_pnl_token_amount"]
+            add = H.deep_calls(f, p, r"^CollateralProcessor::add_pnl_token_amount$")
             if not t:
                 if eff or add:
                     bad.append("effects without positive value")
@@ -421,7 +470,7 @@ def _decrease(ctx, prog):
                 continue
             if not re.match(r"^self(\.processor)?\.state\.is_pnl_token_long$", str(eff[0]["side"])):
                 bad.append("side %s" % eff[0]["side"])
-            credited = H.lin_of(p["ev"].call_args(add[0])[1])
+            credited = H.lin_of(add[0]["args"][1])
             debited = H.lin_of(eff[0]["amount"])
             if debited.add(credited) or len(credited) != 1:
                 bad.append("pool delta %s vs amount added to the outputs %s" % (debited.show(), credited.show()))
